@@ -161,12 +161,34 @@ def _keys(it: Term) -> Term:
     return it
 
 
+def _drop_enumerate(gens: list, rest: Any) -> list:
+    """`for _, x in enumerate(S)` with the counter unused is `for x in S`."""
+    out = list(gens)
+    for i, (pat, it, conds) in enumerate(out):
+        if it[0] == "call" and it[1] == "enumerate" and len(it[2]) == 1 and not it[3] and pat[0] == "tuplelit" and len(pat[1]) == 2 and pat[1][0][0] == "var":
+            cnt = pat[1][0]
+            used = any(x == cnt for x in subterms_of((conds, [g for g in out[i + 1:]], rest)))
+            if not used:
+                out[i] = (pat[1][1], it[2][0], conds)
+    return out
+
+
+def subterms_of(t: Any):
+    if isinstance(t, (tuple, list)):
+        if isinstance(t, tuple) and is_term(t):
+            yield t
+        for x in t:
+            yield from subterms_of(x)
+
+
 def _norm_items_term(t: Any) -> Any:
     def f(s_: Term):
         if s_[0] == "comp" and len(s_) > 3:
+            s0_ = s_
+            s_ = ("comp", s_[1], s_[2], tuple(_drop_enumerate(list(s_[3]), s_[2])))
             gens = [(g[0], _keys(g[1]), g[2]) for g in s_[3]]
             elt = s_[2]
-            ch = tuple(gens) != tuple(s_[3])
+            ch = tuple(gens) != tuple(s0_[3])
             for i, (pat, it, conds) in enumerate(gens):
                 r = _items_gen(pat, it)
                 if r is None:
@@ -179,6 +201,24 @@ def _norm_items_term(t: Any) -> Any:
                 ch = True
             if ch:
                 return ("comp", s_[1], elt, tuple(gens))
+        if s_[0] == "accum" and len(s_) > 5:
+            s0_ = s_
+            s_ = ("accum", s_[1], s_[2], s_[3], tuple(_drop_enumerate(list(s_[4]), s_[3])), s_[5])
+            gens = [(g[0], _keys(g[1]), g[2]) for g in s_[4]]
+            payload = s_[3]
+            ch = tuple(gens) != tuple(s0_[4])
+            for i, (pat, it, conds) in enumerate(gens):
+                r = _items_gen(pat, it)
+                if r is None:
+                    continue
+                k, src, m = r
+                gens[i] = (k, src, subst(conds, m))
+                for j in range(i + 1, len(gens)):
+                    gens[j] = (gens[j][0], subst(gens[j][1], m), subst(gens[j][2], m))
+                payload = subst(payload, m)
+                ch = True
+            if ch:
+                return ("accum", s_[1], s_[2], payload, tuple(gens), s_[5])
         if s_[0] == "forall-not":
             r = _items_gen(s_[1], s_[2])
             if r is not None:
